@@ -685,6 +685,412 @@ theorem mergeFeat_spec (cv : Conv F) (df : DF L F) (n : Nat) (names : List (Styp
       some (mapG (specG cv df n) (mergeNames names), mergeNames names) :=
   foldl_mergeStep cv df n childOrder names
 
+/-! ### membership in rewritten dictionaries -/
+
+theorem mem_dictSet [DecidableEq κ] (d : List (κ × ν)) (k : κ) (v : ν) (p : κ × ν) (h : p ∈ dictSet d k v) :
+    p = (k, v) ∨ p ∈ d := by
+  induction d with
+  | nil => simpa [dictSet] using h
+  | cons q rest ih =>
+    obtain ⟨k', v'⟩ := q
+    simp only [dictSet] at h
+    by_cases hk : k' = k
+    · simp only [hk, if_true, List.mem_cons] at h
+      rcases h with h | h
+      · exact Or.inl h
+      · exact Or.inr (by simp [h])
+    · simp only [hk, if_false, List.mem_cons] at h
+      rcases h with h | h
+      · exact Or.inr (by simp [h])
+      · rcases ih h with h' | h'
+        · exact Or.inl h'
+        · exact Or.inr (by simp [h'])
+
+theorem self_mem_dictSet [DecidableEq κ] (d : List (κ × ν)) (k : κ) (v : ν) : (k, v) ∈ dictSet d k v := by
+  induction d with
+  | nil => simp [dictSet]
+  | cons q rest ih =>
+    obtain ⟨k', v'⟩ := q
+    simp only [dictSet]
+    by_cases hk : k' = k
+    · simp [hk]
+    · simp [hk, ih]
+
+theorem mem_dictErase [DecidableEq κ] (d : List (κ × ν)) (k : κ) (p : κ × ν) :
+    p ∈ dictErase d k ↔ p ∈ d ∧ p.1 ≠ k := by
+  simp [dictErase]
+
+theorem mem_of_dictGet [DecidableEq κ] (d : List (κ × ν)) (k : κ) (v : ν) (h : dictGet d k = some v) : (k, v) ∈ d := by
+  induction d with
+  | nil => simp [dictGet] at h
+  | cons q rest ih =>
+    obtain ⟨k', v'⟩ := q
+    simp only [dictGet] at h
+    by_cases hk : k' = k
+    · simp only [hk, if_true, Option.some.injEq] at h
+      simp [hk, h]
+    · simp only [hk, if_false] at h
+      simp [ih h]
+
+theorem mergeNamesStep_groups (names : List (Stype × List String)) (s : Stype)
+    (h : ∀ p ∈ names, p.2 ≠ []) : ∀ p ∈ mergeNamesStep names s, p.2 ≠ [] := by
+  unfold mergeNamesStep
+  by_cases hs : s.parent = s
+  · simpa [hs] using h
+  · simp only [hs, if_false]
+    cases hcs : dictGet names s with
+    | none => simpa using h
+    | some cs =>
+      intro p hp
+      simp only at hp
+      rw [mem_dictErase] at hp
+      rcases mem_dictSet _ _ _ _ hp.1 with hp' | hp'
+      · rw [hp']
+        have : cs ≠ [] := h (s, cs) (mem_of_dictGet _ _ _ hcs)
+        simp [this]
+      · exact h p hp'
+
+theorem mergeNamesStep_nonempty (names : List (Stype × List String)) (s : Stype) (h : names ≠ []) :
+    mergeNamesStep names s ≠ [] := by
+  unfold mergeNamesStep
+  by_cases hs : s.parent = s
+  · simpa [hs] using h
+  · simp only [hs, if_false]
+    cases hcs : dictGet names s with
+    | none => simpa using h
+    | some cs =>
+      simp only
+      intro hnil
+      have hm := self_mem_dictSet names s.parent ((dictGet names s.parent).getD [] ++ cs)
+      have : (s.parent, (dictGet names s.parent).getD [] ++ cs) ∈
+          dictErase (dictSet names s.parent ((dictGet names s.parent).getD [] ++ cs)) s := by
+        rw [mem_dictErase]
+        exact ⟨hm, hs⟩
+      rw [hnil] at this
+      simp at this
+
+theorem mergeNames_groups (names : List (Stype × List String)) (h : ∀ p ∈ names, p.2 ≠ []) :
+    ∀ p ∈ mergeNames names, p.2 ≠ [] := by
+  unfold mergeNames
+  generalize childOrder = l
+  induction l generalizing names with
+  | nil => simpa using h
+  | cons s rest ih => exact ih _ (mergeNamesStep_groups names s h)
+
+theorem mergeNames_nonempty (names : List (Stype × List String)) (h : names ≠ []) : mergeNames names ≠ [] := by
+  unfold mergeNames
+  generalize childOrder = l
+  induction l generalizing names with
+  | nil => simpa using h
+  | cons s rest ih => exact ih _ (mergeNamesStep_nonempty names s h)
+
+/-- REFINEMENT: inside the typed domain one converter call returns the specification frame — for every
+    group of the merged name table the canonical container of the encoded columns — and leaves the merged
+    name table as the converter's state. -/
+theorem call_spec (cv : Conv F) (df : DF L F) (n : Nat) (hok : CallOK cv df n) :
+    cv.call df = some
+      ({ feats := mapG (specG cv df n) (mergeNames cv.names), names := mergeNames cv.names, y := cv.yOf df },
+       { cv with names := mergeNames cv.names }) := by
+  have hy : ∀ yy, cv.yOf df = some yy → yy.numRows = n := by
+    intro yy hyy
+    unfold Conv.yOf at hyy
+    cases ht : cv.target with
+    | none => simp [ht] at hyy
+    | some t =>
+      simp only [ht, Conv.mapCol] at hyy
+      cases hcol : df.col? t with
+      | none => simp [hcol] at hyy
+      | some col =>
+        simp only [hcol, Option.map_some, Option.some.injEq] at hyy
+        obtain ⟨hlen, hwf⟩ := hok.target t col ht hcol
+        rw [← hyy]
+        exact forward_numRows _ _ _ _ n hok.labels hlen hwf
+  have hrows : ∀ s cols, (specG cv df n s cols).numRows = n := fun s cols => specFeat_numRows s n _
+  have hcols : ∀ s cols, (specG cv df n s cols).numCols = cols.length := by
+    intro s cols
+    simp [specG, specFeat_numCols s n _ hok.npos]
+  have hv0 := validate_mapG (specG cv df n) cv.names n hok.nonempty (fun p hp => (hok.groups p hp).1)
+    hrows hcols (cv.yOf df) hy
+  have hv1 := validate_mapG (specG cv df n) (mergeNames cv.names) n (mergeNames_nonempty _ hok.nonempty)
+    (mergeNames_groups _ (fun p hp => (hok.groups p hp).1)) hrows hcols (cv.yOf df) hy
+  unfold Conv.call
+  rw [buildFeats_spec cv df n hok]
+  simp only [Option.bind_eq_bind, Option.bind_some, hv0, Bool.not_true, Bool.false_eq_true, if_false]
+  rw [mergeFeat_spec]
+  simp only [Option.bind_some, hv1, Bool.not_true, Bool.false_eq_true, if_false]
+  rfl
+
+/-! ### looking a column up in the produced frame -/
+
+theorem dictGet_of_mem_nodup [DecidableEq κ] (d : List (κ × ν)) (k : κ) (v : ν) (hm : (k, v) ∈ d)
+    (hnd : (d.map (·.1)).Nodup) : dictGet d k = some v := by
+  induction d with
+  | nil => simp at hm
+  | cons q rest ih =>
+    obtain ⟨k', v'⟩ := q
+    simp only [List.map_cons, List.nodup_cons] at hnd
+    simp only [dictGet]
+    rcases List.mem_cons.mp hm with h | h
+    · simp only [Prod.mk.injEq] at h
+      simp [h.1, h.2]
+    · have hne : k' ≠ k := by
+        intro e
+        apply hnd.1
+        rw [e]
+        exact List.mem_map.mpr ⟨(k, v), h, rfl⟩
+      simp [hne, ih h hnd.2]
+
+theorem keys_dictSet [DecidableEq κ] (d : List (κ × ν)) (k : κ) (v : ν) :
+    (dictSet d k v).map (·.1) = if k ∈ d.map (·.1) then d.map (·.1) else d.map (·.1) ++ [k] := by
+  induction d with
+  | nil => simp [dictSet]
+  | cons q rest ih =>
+    obtain ⟨k', v'⟩ := q
+    simp only [dictSet]
+    by_cases hk : k' = k
+    · simp [hk]
+    · have hk' : ¬ k = k' := fun e => hk e.symm
+      simp only [hk, if_false, List.map_cons, ih, List.mem_cons, hk', false_or]
+      split <;> simp
+
+theorem keys_dictErase [DecidableEq κ] (d : List (κ × ν)) (k : κ) :
+    (dictErase d k).map (·.1) = (d.map (·.1)).filter (· ≠ k) := by
+  simp only [dictErase, List.filter_map]
+  rfl
+
+theorem mergeNamesStep_keys (names : List (Stype × List String)) (s : Stype)
+    (h : (names.map (·.1)).Nodup) : ((mergeNamesStep names s).map (·.1)).Nodup := by
+  unfold mergeNamesStep
+  by_cases hs : s.parent = s
+  · simpa [hs] using h
+  · simp only [hs, if_false]
+    cases hcs : dictGet names s with
+    | none => simpa using h
+    | some cs =>
+      simp only
+      rw [keys_dictErase, keys_dictSet]
+      refine List.Nodup.sublist List.filter_sublist ?_
+      split
+      · exact h
+      · rename_i hnot
+        rw [List.nodup_append]
+        refine ⟨h, by simp, ?_⟩
+        intro a ha b hb
+        simp only [List.mem_singleton] at hb
+        subst hb
+        intro e
+        exact hnot (e ▸ ha)
+
+theorem mergeNames_keys (names : List (Stype × List String)) (h : (names.map (·.1)).Nodup) :
+    ((mergeNames names).map (·.1)).Nodup := by
+  unfold mergeNames
+  generalize childOrder = l
+  induction l generalizing names with
+  | nil => simpa using h
+  | cons s rest ih => exact ih _ (mergeNamesStep_keys names s h)
+
+/-- every name of a merged group comes from a group of the same storage kind -/
+theorem mergeNamesStep_origin (names : List (Stype × List String)) (s : Stype) :
+    ∀ p ∈ mergeNamesStep names s, ∀ c ∈ p.2, ∃ g ∈ names, c ∈ g.2 ∧
+      g.1.useEmbedding = p.1.useEmbedding ∧ g.1.useNested = p.1.useNested := by
+  unfold mergeNamesStep
+  by_cases hs : s.parent = s
+  · simp only [hs, if_true]
+    intro p hp c hc
+    exact ⟨p, hp, hc, rfl, rfl⟩
+  · simp only [hs, if_false]
+    have hflags : s.useEmbedding = s.parent.useEmbedding ∧ s.useNested = s.parent.useNested := by
+      cases s <;> simp [Stype.parent, Stype.useEmbedding, Stype.useNested] at hs ⊢
+    cases hcs : dictGet names s with
+    | none =>
+      intro p hp c hc
+      exact ⟨p, hp, hc, rfl, rfl⟩
+    | some cs =>
+      intro p hp c hc
+      simp only at hp
+      rw [mem_dictErase] at hp
+      rcases mem_dictSet _ _ _ _ hp.1 with hp' | hp'
+      · subst hp'
+        simp only [List.mem_append] at hc
+        rcases hc with hc | hc
+        · cases hps : dictGet names s.parent with
+          | none => simp [hps] at hc
+          | some ps =>
+            simp only [hps, Option.getD_some] at hc
+            exact ⟨(s.parent, ps), mem_of_dictGet _ _ _ hps, hc, rfl, rfl⟩
+        · exact ⟨(s, cs), mem_of_dictGet _ _ _ hcs, hc, hflags.1, hflags.2⟩
+      · exact ⟨p, hp', hc, rfl, rfl⟩
+
+theorem mergeNames_origin (names : List (Stype × List String)) :
+    ∀ p ∈ mergeNames names, ∀ c ∈ p.2, ∃ g ∈ names, c ∈ g.2 ∧
+      g.1.useEmbedding = p.1.useEmbedding ∧ g.1.useNested = p.1.useNested := by
+  unfold mergeNames
+  generalize childOrder = l
+  induction l generalizing names with
+  | nil =>
+    intro p hp c hc
+    exact ⟨p, hp, hc, rfl, rfl⟩
+  | cons s rest ih =>
+    intro p hp c hc
+    obtain ⟨g, hg, hcg, h1, h2⟩ := ih (mergeNamesStep names s) p hp c hc
+    obtain ⟨g', hg', hcg', h1', h2'⟩ := mergeNamesStep_origin names s g hg c hcg
+    exact ⟨g', hg', hcg', h1'.trans h1, h2'.trans h2⟩
+
+/-- the lookup table finds a group that holds the name, at the name's position -/
+theorem locate_spec (tf : TF F) (name : String) (h : ∃ p ∈ tf.names, name ∈ p.2) :
+    ∃ p ∈ tf.names, ∃ j, tf.locate name = some (p.1, j) ∧ p.2[j]? = some name := by
+  unfold TF.locate
+  have hstep : ∀ (l : List (Stype × List String)), (∀ p ∈ l, p ∈ tf.names) → ∀ acc : Option (Stype × Nat),
+      (∀ sj, acc = some sj → ∃ p ∈ tf.names, p.1 = sj.1 ∧ p.2[sj.2]? = some name) →
+      (acc.isSome ∨ ∃ p ∈ l, name ∈ p.2) →
+      ∃ sj, l.foldl (fun acc (x : Stype × List String) =>
+          match x.2.idxOf? name with
+          | some j => some (x.1, j)
+          | none => acc) acc = some sj ∧ ∃ p ∈ tf.names, p.1 = sj.1 ∧ p.2[sj.2]? = some name := by
+    intro l
+    induction l with
+    | nil =>
+      intro _ acc hinv hsome
+      rcases hsome with hs | ⟨p, hp, _⟩
+      · obtain ⟨sj, hsj⟩ := Option.isSome_iff_exists.mp hs
+        exact ⟨sj, by simpa using hsj, hinv sj hsj⟩
+      · simp at hp
+    | cons q rest ih =>
+      intro hsub acc hinv hsome
+      simp only [List.foldl_cons]
+      apply ih (fun p hp => hsub p (by simp [hp]))
+      · intro sj hsj
+        cases hidx : q.2.idxOf? name with
+        | none => simp only [hidx] at hsj; exact hinv sj hsj
+        | some j =>
+          simp only [hidx, Option.some.injEq] at hsj
+          subst hsj
+          obtain ⟨hlt, hget, _⟩ := List.idxOf?_eq_some_iff.mp hidx
+          exact ⟨q, hsub q (by simp), rfl, by simp [List.getElem?_eq_getElem hlt, hget]⟩
+      · cases hidx : q.2.idxOf? name with
+        | some j => simp
+        | none =>
+          have hnot : name ∉ q.2 := List.idxOf?_eq_none_iff.mp hidx
+          rcases hsome with hs | ⟨p, hp, hpn⟩
+          · exact Or.inl (by simpa using hs)
+          · rcases List.mem_cons.mp hp with e | hp'
+            · subst e; exact absurd hpn hnot
+            · exact Or.inr ⟨p, hp', hpn⟩
+  obtain ⟨sj, hfold, p, hp, h1, h2⟩ := hstep tf.names (fun p hp => hp) none (by simp) (Or.inr h)
+  refine ⟨p, hp, sj.2, ?_, h2⟩
+  rw [h1]
+  exact hfold
+
+theorem mem_dictSet_of_ne [DecidableEq κ] (d : List (κ × ν)) (k : κ) (v : ν) (p : κ × ν) (hp : p ∈ d)
+    (hne : p.1 ≠ k) : p ∈ dictSet d k v := by
+  induction d with
+  | nil => simp at hp
+  | cons q rest ih =>
+    obtain ⟨k', v'⟩ := q
+    simp only [dictSet]
+    by_cases hk : k' = k
+    · simp only [hk, if_true, List.mem_cons]
+      rcases List.mem_cons.mp hp with e | h
+      · exact absurd (by rw [e]; exact hk) hne
+      · exact Or.inr h
+    · simp only [hk, if_false, List.mem_cons]
+      rcases List.mem_cons.mp hp with e | h
+      · exact Or.inl e
+      · exact Or.inr (ih h)
+
+/-- no name is lost by the merge -/
+theorem mergeNamesStep_keeps (names : List (Stype × List String)) (s : Stype) (hk : (names.map (·.1)).Nodup) :
+    ∀ g ∈ names, ∀ c ∈ g.2, ∃ p ∈ mergeNamesStep names s, c ∈ p.2 := by
+  unfold mergeNamesStep
+  intro g hg c hc
+  by_cases hs : s.parent = s
+  · exact ⟨g, by simpa [hs] using hg, hc⟩
+  · simp only [hs, if_false]
+    cases hcs : dictGet names s with
+    | none => exact ⟨g, hg, hc⟩
+    | some cs =>
+      simp only
+      have hparent_mem := self_mem_dictSet names s.parent ((dictGet names s.parent).getD [] ++ cs)
+      have hparent : (s.parent, (dictGet names s.parent).getD [] ++ cs) ∈
+          dictErase (dictSet names s.parent ((dictGet names s.parent).getD [] ++ cs)) s := by
+        rw [mem_dictErase]; exact ⟨hparent_mem, hs⟩
+      by_cases h1 : g.1 = s
+      · have : dictGet names g.1 = some g.2 := dictGet_of_mem_nodup names g.1 g.2 hg hk
+        rw [h1, hcs] at this
+        have hcs' : cs = g.2 := by simpa using this
+        exact ⟨_, hparent, by simp [hcs', hc]⟩
+      · by_cases h2 : g.1 = s.parent
+        · have : dictGet names g.1 = some g.2 := dictGet_of_mem_nodup names g.1 g.2 hg hk
+          rw [h2] at this
+          exact ⟨_, hparent, by simp [this, hc]⟩
+        · refine ⟨g, ?_, hc⟩
+          rw [mem_dictErase]
+          exact ⟨mem_dictSet_of_ne _ _ _ g hg h2, h1⟩
+
+theorem mergeNames_keeps (names : List (Stype × List String)) (hk : (names.map (·.1)).Nodup) :
+    ∀ g ∈ names, ∀ c ∈ g.2, ∃ p ∈ mergeNames names, c ∈ p.2 := by
+  unfold mergeNames
+  generalize childOrder = l
+  induction l generalizing names with
+  | nil => intro g hg c hc; exact ⟨g, hg, hc⟩
+  | cons s rest ih =>
+    intro g hg c hc
+    obtain ⟨p, hp, hcp⟩ := mergeNamesStep_keeps names s hk g hg c hc
+    exact ih (mergeNamesStep names s) (mergeNamesStep_keys names s hk) p hp c hcp
+
+/-- column facts of the typed domain, for a name anywhere in the name table -/
+theorem col_facts (cv : Conv F) (df : DF L F) (n : Nat) (hok : CallOK cv df n) (g : Stype × List String)
+    (hg : g ∈ cv.names) (c : String) (hc : c ∈ g.2) :
+    ∃ col, df.col? c = some col ∧ col.cells.length = n ∧
+      (specCol cv df c).length = n ∧
+      (g.1.useEmbedding = true → ∀ i, i < n → ((specCol cv df c).getD i []).length = colWidth (specCol cv df c)) := by
+  obtain ⟨col, hcol, hlen, _, _, _, hw⟩ := hok.cols g hg c hc
+  refine ⟨col, hcol, hlen, by simp [specCol, hcol, hlen], ?_⟩
+  intro hE i hi
+  obtain ⟨w, hw⟩ := hw hE
+  have hn := hok.npos
+  have hget : ∀ k, k < n → ((specCol cv df c).getD k []).length = w := by
+    intro k hk
+    simp only [specCol, hcol]
+    rw [getD_eq_getElem _ _ _ (by simpa [hlen] using hk)]
+    simp only [List.getElem_map]
+    exact hw _ (List.getElem_mem _)
+  rw [hget i hi]
+  have h0 := hget 0 hn
+  simp only [colWidth]
+  rw [← h0]
+  cases hsc : specCol cv df c with
+  | nil => simp
+  | cons x xs => simp
+
+/-- Inside the typed domain, every entry of the frame a converter call returns, read through the frame's own
+    lookup table, is the specification encoding of the raw cell of that row and column. -/
+theorem call_cell (cv : Conv F) (df : DF L F) (n : Nat) (hok : CallOK cv df n)
+    (name : String) (hname : ∃ g ∈ cv.names, name ∈ g.2) (i : Nat) (hi : i < n) :
+    ∃ tf cv', cv.call df = some (tf, cv') ∧ tf.names = mergeNames cv.names ∧ cv'.names = mergeNames cv.names ∧
+      tf.cell name i = some ((specCol cv df name).getD i []) := by
+  refine ⟨_, _, call_spec cv df n hok, rfl, rfl, ?_⟩
+  obtain ⟨g, hg, hcg⟩ := hname
+  obtain ⟨p0, hp0, hc0⟩ := mergeNames_keeps cv.names hok.keys g hg name hcg
+  obtain ⟨p, hp, j, hloc, hj⟩ := locate_spec
+    ({ feats := mapG (specG cv df n) (mergeNames cv.names), names := mergeNames cv.names, y := cv.yOf df } : TF F)
+    name ⟨p0, hp0, hc0⟩
+  have hkeys := mergeNames_keys cv.names hok.keys
+  have hget : dictGet (mergeNames cv.names) p.1 = some p.2 := dictGet_of_mem_nodup _ _ _ hp hkeys
+  have hjlt : j < p.2.length := by
+    by_contra hge
+    rw [List.getElem?_eq_none (by omega)] at hj
+    simp at hj
+  simp only [TF.cell, hloc, Option.bind_eq_bind, Option.bind_some, dictGet_mapG, hget, Option.map_some, specG]
+  rw [specFeat_cell p.1 n _ i j hi (by simpa using hjlt)]
+  · congr 1
+    simp [List.getD_eq_getElem?_getD, List.getElem?_map, hj]
+  · intro hE c hc
+    obtain ⟨nm, hnm, rfl⟩ := List.mem_map.mp hc
+    obtain ⟨g', hg', hcg', hf1, _⟩ := mergeNames_origin cv.names p hp nm hnm
+    obtain ⟨_, _, _, _, hw⟩ := col_facts cv df n hok g' hg' nm hcg'
+    exact hw (hf1.trans hE) i hi
+
 end Mat
 
 end TFVerif
